@@ -311,21 +311,23 @@ Definition run (v : wv) : wv :=
                WL (let t1 := loop_env (fst (track false [] [] (ungated ss))) body in folded_lens (fn_first (rebound ss body) t1 body) t1 body)]
       | _, _, _, _ => wbad
       end
-  | WL [WI 3; WL pre; WL arms; WI k; WL b; WL cvals] =>
+  | WL [WI 3; WL pre; WL arms; WI k; WL post; WL b; WL cvals] =>
       (* the statements [pre], then ONE if / elif / else (try / except) statement with the arms [arms] of which arm k is the
-         one taken at run time, then the main loop [b]:  ->  (0 len_ok-of-the-taken-path (fw phases) (py phases)
+         one taken at run time, then the top-level statements [post] (reads), then the main loop [b]:  ->  (0 len_ok-of-the-taken-path (fw phases) (py phases)
          (the lengths the parser folds in every arm: one list per arm, one entry per statement, -1 = none / run-time)
-         (the same for the parser that copies the environment once per statement)) *)
-      match un_tstmts pre, un_arms arms, un_tstmts b, un_ints cvals with
-      | Some ps, Some ars, Some bs, Some cs =>
-          let setup := taken_path ps ars (Z.to_nat k) in
+         (the same for the parser that copies the environment once per statement)
+         ((the lengths folded in [post]: the names some arm writes are forgotten))) *)
+      match un_tstmts pre, un_arms arms, un_tstmts b, un_ints cvals, un_tstmts post with
+      | Some ps, Some ars, Some bs, Some cs, Some po =>
+          let setup := taken_path ps ars (Z.to_nat k) ++ po in
           let body := ungated bs in
           wok [wbool (len_ok setup body);
                WL (tf_trace setup body cs);
                WL (tp_trace setup body cs);
                w_lens (arm_lens ps ars);
-               w_lens (arm_lens_shared ps ars)]
-      | _, _, _, _ => wbad
+               w_lens (arm_lens_shared ps ars);
+               w_lens [after_lens ps ars po]]
+      | _, _, _, _, _ => wbad
       end
   | _ => wbad
   end.
